@@ -253,11 +253,12 @@ PROPS = ["sgp4", "kepler", "j2", "none", "num_rk4", "num_euler", "num_dopri54", 
 
 def _grid_iter(tier, rng):
     """propagators {sgp4, kepler, j2, none, numerical x 4 methods, cw, ephemeris} x start {before, at, after epoch} x span sign {forward, backward}
-    x (span, step) in {(600,100), (650,100) non-dividing, (180,60) and (30,10) shorter than the interpolation order, (615,100) and (615,30) stop off grid}"""
+    x (span, step) in {(600,100), (650,100) non-dividing, (180,60) and (30,10) shorter than the interpolation order, (615,100) and (615,30) stop off grid,
+    (1,0.1), (0.6,0.2), (0.7,0.1): steps that are no binary fraction of a second, dividing the span}"""
     for p in range(len(PROPS)):
         for st in (-500.0, 0.0, 700.0):
             for sgn in (1, -1):
-                for span, step in ((600.0, 100.0), (650.0, 100.0), (180.0, 60.0), (30.0, 10.0), (615.0, 100.0), (615.0, 30.0)):
+                for span, step in ((600.0, 100.0), (650.0, 100.0), (180.0, 60.0), (30.0, 10.0), (615.0, 100.0), (615.0, 30.0), (1.0, 0.1), (0.6, 0.2), (0.7, 0.1)):
                     yield {"prop": p, "start": st, "sign": sgn, "span": span, "step": step}
 
 
